@@ -128,6 +128,10 @@ def sem_smc(st, o, f):
     if st.cfg.get("have_security_ext") and st.M != USR:
         if st.cfg.get("have_virt_ext") and not st.secure() and st.M != HYP and bv.bit(st.loc["hcr"], 19):
             raise ModelStop("hyptrap")
+        if bv.bit(st.loc["scr"], 7):          # SCR.SCD: SMC disabled
+            if st.secure():
+                raise Unpredictable("SMC with SCR.SCD=1 in Secure state")
+            raise ModelStop("undef")
         raise ModelStop("smc")
     raise ModelStop("undef")
 
